@@ -34,4 +34,4 @@ LEVEL_TEXT = ('Bounded symbolic verification of the real ExtrapolatedSmootherGiv
               'fine-only nodes of the last colour, the exact solution is a fixed point, give = take, and the scratch contents do not matter. Shapes are bounded.')
 LEVEL_NOTE = 'exact arithmetic for equalities; structural / IEEE query for the bit-exact claim; numeric small-rational coefficient sets; shapes bounded'
 TECHNIQUE = 'symbolic execution of LLVM IR (llsym) + SMT (cvc5 QF_LRA; z3 QF_FP for bit-exactness)'
-DESIGN_REF = 'DESIGN.md section 6/C07'
+DESIGN_REF = 'DESIGN.md section 0 (status as built: 0.2, 0.5, 0.6) and section 6/C07 (design)'
